@@ -17,6 +17,9 @@ import (
 
 var verifRoot = "/verif"
 
+// outRoot: where out/, replays/ and evidence/ are written (VERIF_OUT_ROOT redirects them for experiments on scratch copies)
+var outRoot = ""
+
 func main() {
 	if len(os.Args) < 2 {
 		fmt.Fprintln(os.Stderr, "usage: govc check <PID> quick|thorough | govc vc -pkg P -func F | govc baseline <PID>...")
@@ -24,6 +27,10 @@ func main() {
 	}
 	if r := os.Getenv("VERIF_ROOT"); r != "" {
 		verifRoot = r
+	}
+	outRoot = verifRoot
+	if r := os.Getenv("VERIF_OUT_ROOT"); r != "" {
+		outRoot = r
 	}
 	switch os.Args[1] {
 	case "vc":
@@ -60,7 +67,10 @@ type oblStatus struct {
 	MaxS      float64 // slowest single query of this obligation
 	FailInst  *Obligation
 	FailRes   *SolveResult
-	Goal      string
+	// further failing instances with a model (other paths): the replay tries them when the first one does not reproduce
+	MoreInst []*Obligation
+	MoreRes  []*SolveResult
+	Goal     string
 	Pos       string
 }
 
@@ -236,9 +246,12 @@ func dischargeFunc(sv *Solver, fr *FuncResult, par int) map[string]*oblStatus {
 				terms = append(terms, v.Term)
 			}
 			for _, f := range o.Fields {
-				terms = append(terms, f.Term)
+				if f.Term != "" {
+					terms = append(terms, f.Term)
+				}
+				terms = append(terms, f.Extra...)
 			}
-			r := sv.solve(o.Name(), pre+o.Script, terms, o.Reach)
+			r := sv.solveH(o.Name(), pre+o.Script, terms, o.Hints, o.Reach)
 			mu.Lock()
 			defer mu.Unlock()
 			st := stats[o.Name()]
@@ -260,8 +273,12 @@ func dischargeFunc(sv *Solver, fr *FuncResult, par int) map[string]*oblStatus {
 				}
 			case "sat":
 				st.Sat++
-				if !o.Reach && st.FailInst == nil {
-					st.FailInst, st.FailRes = o, r
+				if !o.Reach {
+					if st.FailInst == nil || (st.FailRes != nil && st.FailRes.Answer != "sat") {
+						st.FailInst, st.FailRes = o, r
+					} else if len(st.MoreInst) < 5 && r.Model != nil {
+						st.MoreInst, st.MoreRes = append(st.MoreInst, o), append(st.MoreRes, r)
+					}
 				}
 			default:
 				st.Unknown++
@@ -301,7 +318,7 @@ func cmdVC(args []string) {
 		fmt.Fprintln(os.Stderr, "no contracts for", path)
 		os.Exit(2)
 	}
-	out := filepath.Join(verifRoot, "out", "vc")
+	out := filepath.Join(outRoot, "out", "vc")
 	os.RemoveAll(out)
 	sv := newSolver(out, *tq, 60)
 	_ = keep
@@ -348,14 +365,28 @@ func cmdVC(args []string) {
 					bad++
 					if st.FailRes != nil {
 						fmt.Printf("      solver: %v at %s (path %d) unsat=%d sat=%d unknown=%d\n", st.FailRes.Tried, st.FailInst.Pos, st.FailInst.PathID, st.Unsat, st.Sat, st.Unknown)
-						if st.FailRes.Model != nil && st.FailInst != nil {
+						if os.Getenv("GOVC_VC_REPLAY") != "" && st.FailRes.Model != nil && st.FailInst != nil {
+							ri := writeReplay(eng, filepath.Join(outRoot, "out", "vcreplay"), "VC", n, st, fr)
+							var rf ReplayFile
+							readJSON(ri.path, &rf)
+							fmt.Printf("      replay: %s %s\n", ri.status, rf.Replay["reason"])
+							if os.Getenv("GOVC_VC_REPLAY") == "v" {
+								fmt.Printf("%s\n----\n%s\n", rf.Replay["test_source"], rf.Replay["go_test_output"])
+							}
+						}
+						if st.FailRes.Model != nil && st.FailInst != nil && os.Getenv("GOVC_VC_REPLAY") == "" {
 							for _, v := range st.FailInst.Vars {
 								if val, ok := st.FailRes.Model[v.Term]; ok {
 									fmt.Printf("      %s = %s\n", v.Name, val)
 								}
 							}
+							shown := 0
 							for _, v := range st.FailInst.Fields {
-								if val, ok := st.FailRes.Model[v.Term]; ok {
+								if val, ok := st.FailRes.Model[v.Term]; ok && v.Term != "" && v.Kind != "strlit" {
+									if shown++; shown > 60 {
+										fmt.Printf("      ... (%d locations in all; GOVC_VC_REPLAY=1 writes the full input)\n", len(st.FailInst.Fields))
+										break
+									}
 									fmt.Printf("      %s = %s\n", v.Path, val)
 								}
 							}
@@ -482,7 +513,7 @@ func cmdCheck(args []string) int {
 	if tier == "thorough" {
 		quickT, longT = 30, 120
 	}
-	outDir := filepath.Join(verifRoot, "out", fmt.Sprintf("%s.%d", pid, os.Getpid()))
+	outDir := filepath.Join(outRoot, "out", fmt.Sprintf("%s.%d", pid, os.Getpid()))
 	sv := newSolver(outDir, quickT, longT)
 	// thorough: every obligation instance gets its own query (no batching of a return point's obligations), longer
 	// solver timeouts, and the larger bounds of the bounded stand-ins
@@ -528,7 +559,7 @@ func cmdCheck(args []string) int {
 	var undecidedList, trusted, funcsUnderContract, knownHit, unclaimedList, slow []string
 	vacuity := 0
 	exit := 0
-	replayDir := filepath.Join(verifRoot, "replays", pid)
+	replayDir := filepath.Join(outRoot, "replays", pid)
 	for i, it := range items {
 		if it.fc.Trusted != "" {
 			trusted = append(trusted, shortPkg(it.pkg)+"."+it.fc.Key+": "+it.fc.Trusted)
@@ -595,10 +626,24 @@ func cmdCheck(args []string) int {
 						continue
 					}
 					rp := writeReplay(eng, replayDir, pid, n, st, fr)
-					fmt.Printf("VIOLATION property=%s replay=%s obligation=%s no-failing-input-found\n", pid, rp.path, n)
+					tail := ""
+					if rp.status != "confirmed" {
+						tail = " no-failing-input-found"
+					}
+					fmt.Printf("VIOLATION property=%s replay=%s obligation=%s%s\n", pid, rp.path, n, tail)
 					violations++
 					exit = 1
 				} else {
+					// a new obligation the solvers cannot decide is not a violation -- unless a candidate counterexample
+					// (quantifier-free weakening) makes the real code exhibit it
+					if st.FailRes != nil && st.FailRes.Candidate && matchKnown(known, pid, n) == nil {
+						if rp := writeReplay(eng, replayDir, pid, n, st, fr); rp.status == "confirmed" {
+							fmt.Printf("VIOLATION property=%s replay=%s obligation=%s\n", pid, rp.path, n)
+							violations++
+							exit = 1
+							continue
+						}
+					}
 					fmt.Printf("UNDECIDED property=%s obligation=%s (solver: %v)\n", pid, n, st.FailRes.Tried)
 					undecidedList = append(undecidedList, n)
 					undecidedN++
@@ -731,9 +776,9 @@ func writeEvidence(pid, tier string, seed int, level string, cov map[string]inte
 	if ev.Assumptions == nil {
 		ev.Assumptions = []string{}
 	}
-	os.MkdirAll(filepath.Join(verifRoot, "evidence"), 0o755)
+	os.MkdirAll(filepath.Join(outRoot, "evidence"), 0o755)
 	b, _ := json.MarshalIndent(ev, "", " ")
-	os.WriteFile(filepath.Join(verifRoot, "evidence", pid+".json"), b, 0o644)
+	os.WriteFile(filepath.Join(outRoot, "evidence", pid+".json"), b, 0o644)
 }
 
 var globalAssumptions = []string{
